@@ -123,6 +123,49 @@ reg("C36", "model_checking",
     SERVER_TECH, "5/C36")
 
 
+TABLE_TECH = "TLA+ function tables / state machine enumerated by TLC, executed on the real objects, judged by a TLC observer"
+
+reg("C07", "model_checking",
+    "TLC enumerates retry/stop condition trees and wait-strategy trees (all atoms over an integer/rational argument grid, "
+    "combinator trees to depth 1 quick / depth 2 thorough, constructor and operator forms) and checks the laws of the "
+    "statement on the tables (or/and/operator = combinator/units; 0 <= w <= documented max, clamping, sum, determinism, "
+    "totality); every tree is built with the real constructors/operators and evaluated on concretised exceptions / "
+    "(attempts, elapsed, sleep) / (k, seed); Obs_C07 judges the returned values (laws on a node vs its parts, documented "
+    "bounds, same-seed determinism).",
+    "Integer/rational grid only (dyadic parameters, k <= 7 plus one symbolic huge k), values compared in 1/1000 s; time "
+    "parameters >= 0 except where a docstring promises clamping; atom semantics of retry/stop conditions and the wait_chain "
+    "index are conformance evidence, not verdicts.",
+    TABLE_TECH, "5/C07")
+reg("C23", "model_checking",
+    "TLC enumerates all step graphs within the instance bounds (<=2 / <=3 steps; base and subclasses of Start/Stop/"
+    "InputRequired/HumanResponse, StepFailedEvent, '-> None', unions, @catch_error scopes, workflow- and step-level skip "
+    "sets) and checks on each that the declarative WellFormed/Hitl equals the implementation-shaped procedure; every graph "
+    "is compiled to a real Workflow subclass and run through the constructor and validate(); Obs_C23 judges accepted <=> "
+    "WellFormed and flag = Hitl.",
+    "Bounded instances; event nodes are exact classes; no resources are declared so resource validation is not exercised; "
+    "reading decisions where the statement is silent are listed at the top of Validate.tla.",
+    TABLE_TECH, "5/C23")
+reg("C28", "model_checking",
+    "TLC checks Migrations.tla (statement-level model of run_migrations with transactions and process kills) exhaustively "
+    "from fresh / every recorded prefix / every legacy user_version: the stated property for the code as is, strict C28 with "
+    "crashes for the atomic-bootstrap design. Real SQLite files in every start state are migrated 3x under 3-4 connection "
+    "modes and killed before every SQL statement (and again in the re-run); every trace is judged by Obs_C28 and validated "
+    "against TraceMigrations by TLC.",
+    "Kills are process kills (file+WAL copies, checked against real fork kills on a sample); power loss is not modelled. "
+    "Legacy databases are reconstructed (no legacy migrator in the tree). Schema equality is structural. Concurrent callers "
+    "are out of scope.",
+    "TLA+ spec + TLC exhaustive checking; crash-point enumeration on the real code; TLC trace validation + observer", "5/C28")
+reg("C37", "model_checking",
+    "TLC checks Llamactl.tla (one action per EnvService/AuthService/ConfigManager operation, active profile stored by name "
+    "only) over the full reachable state space for default + 2 (thorough + 3) environments and 2 names. The real services "
+    "are explored exhaustively for a sub-alphabet, every edge of TLC's small state graph is replayed on the real code, and "
+    "every history is judged by Obs_C37 and validated step by step against TraceLlamactl by TLC.",
+    "llama_agents.cli.__init__, cli.auth.client and core.client.manage_client are stubbed (no operation used reaches the "
+    "network); raw settings setters, renaming a profile and AuthService objects bound to a non-current environment are out of "
+    "scope; select_any_profile may choose any profile of the current environment.",
+    "TLA+ spec + TLC; state-graph replay plus implementation-driven exhaustive exploration; TLC trace validation and observer", "5/C37")
+
+
 def build():
     props = [json.loads(l) for l in (ROOT / "properties.jsonl").read_text().splitlines() if l.strip()]
     checks, na = [], []
